@@ -427,4 +427,6 @@ WITNESSES = [
      "old": "\tlrtr_free(router_key_pdus);\n\tlrtr_free(ipv6_pdus);\n\tlrtr_free(ipv4_pdus);\n\treturn retval;", "new": "\tlrtr_free(router_key_pdus);\n\tif (retval == RTR_SUCCESS)\n\t\tlrtr_free(ipv6_pdus);\n\tlrtr_free(ipv4_pdus);\n\treturn retval;"},
     {"id": "C18.w12-copy-error-flag-overwritten", "rule": "C18.R10", "file": TP,
      "old": "\t\tif (pfx_table_add(args->pfx_table, record) != PFX_SUCCESS)\n\t\t\targs->error = true;", "new": "\t\targs->error = pfx_table_add(args->pfx_table, record) != PFX_SUCCESS;"},
+    {"id": "C18.w13-grow-bookkeeping-before-allocation-test", "rule": "C18.R3", "file": TH,
+     "old": "\t\t\tif (!segment)\n\t\t\t\treturn;", "new": "\t\t\t++hashlin->bucket_bit;\n\t\t\tif (!segment)\n\t\t\t\treturn;\n\t\t\t--hashlin->bucket_bit;"},
 ]
